@@ -8,7 +8,7 @@ CHECKS = {
  "C18": dict(
    technique="TLA+ Layout spec (soundness of a reported layout: components inside and pairwise disjoint, optional flag / result tag outside the payloads; no algorithm prescribed) with a TLC enumerator of type expressions; the layouts the real mir.DataLayout and the native emitter report for every enumerated type at pointer sizes 4 and 8 (fresh and session-shared DataLayout) validated by TLC (LayoutCheck); per sampled type a store-one-component / read-everything / copy program built for both targets and its recorded output validated by TLC against the FerretSem interpreter",
    category="model_checking",
-   text="Type expressions: all 672 of depth 1 over leaf widths 1, 2, 4, 8, 16, 32 bytes, bool and pointer-sized str (structs of <= 3 fields, fixed arrays, optionals, results), 13895 of depth 2 over a reduced inner set (quick: 1500 sampled), 96 look-alike 5/6-field structs. Every reported layout (x 2 pointer sizes x fresh/shared) must be Sound and independent of the session; ~320 (quick) / ~3500 (thorough) programs write each component in turn and read all components, discriminants and neighbouring locals back, copy by binding, assignment, element copy, by-value parameter and return value, natively and (where the wasm back end implements the type) as .wasm.",
+   text="Type expressions: all 672 of depth 1 over leaf widths 1, 2, 4, 8, 16, 32 bytes, bool and pointer-sized str (structs of <= 3 fields, fixed arrays, optionals, results), 13895 of depth 2 over a reduced inner set (quick: 1500 sampled), 96 look-alike 5/6-field structs. Every reported layout (x 2 pointer sizes x fresh/shared) must be Sound and independent of the session; ~320 (quick) / ~3500 (thorough) programs write each component in turn and read all components, discriminants and neighbouring locals back, copy by binding, assignment, element copy (every index), by-value parameter and return value; results over arrays and structs observed for both outcomes; dynamic arrays of composite elements with copies of their own elements appended through a reference; natively and (where the wasm back end implements the type) as .wasm.",
    note="Alignment is advisory; programs a target does not accept are void for it (counted per reason); the optional flag offset and array stride are computed inline by the emitters as SizeOf(payload) / SizeOf(element), the driver reports the same expressions and the programs observe the emitters themselves; a binding self-test (a corrupted real layout must be rejected by the spec) runs on every invocation."),
  "C01": dict(
    technique="TLA+ FerretSem definitional interpreter (values, store, left-to-right evaluation, wrap-at-width integers over BigNum, by-value composites, write-through references, panics) validating by TLC the recorded stdout lines and termination of every compiled-and-run program (SemCheck); programs from a TLC enumerator of boundary expressions (ExprGen), a seeded type-directed generator and a feature corpus",
@@ -16,7 +16,7 @@ CHECKS = {
    text="Code -> spec trace validation: every program is compiled for the native target by the compiler built from the working tree, run, and its recorded lines + termination must be exactly Run(P) of the specification; a generated core-language program that is rejected or crashes the compiler is a violation. Quick: ~1200 boundary-expression cases (every arithmetic / comparison / negation / cast shape x 12 integer types x boundary operands, 4 per stratum; results consumed stored, by a comparison and by a widening cast; MIN / -1 and MIN % -1 each alone in a program) batched into programs, 240 random programs (incl. compound assignment, optionals, results with catch, function literals, methods, break / continue), the corpus and the witnesses of recorded findings; thorough: all ~9k expression cases and 3000 random programs.",
    note="Trusts the AST->source renderer, the line splitter and FerretSem as the formalisation of the property's semantics; division by zero, shifts and float formatting are not generated; random programs are interpreted by the specification itself, the generator carries no expectation."),
  "C02": dict(
-   technique="TLA+ FerretSem / SemCheck: the native and the wasm record of each program are handed to TLC together, which decides agreement (same lines, same kind of termination) and names the record FerretSem prescribes; programs from the TLC boundary-expression enumerator, the seeded generator, the corpus and float programs compared as numbers",
+   technique="TLA+ FerretSem / SemCheck: the native and the wasm record of each program are handed to TLC together, which decides agreement (same lines, same kind of termination) and names the record FerretSem prescribes; programs from the TLC boundary-expression enumerator, the seeded generator, the corpus, the C18 store / read-back programs for arrays of structs, float programs compared as numbers and text witnesses of recorded findings",
    category="translation_validation",
    text="Every program accepted by both targets is built natively and as .wasm (run under node with the shipped runtime.js); the two recorded behaviours must agree line by line and in termination kind (panic <-> thrown panic error; a trap on one side only is a disagreement). Quick ~275 programs (688 expression cases), thorough ~3000.",
    note="Floats are parsed on both sides and compared as float64 numbers; programs not accepted by both targets are void and counted; the wide-integer imports missing from runtime.js are one recorded finding class."),
@@ -28,7 +28,7 @@ CHECKS = {
  "C13": dict(
    technique="TLA+ CompileSession spec (phase order, error gates, Result = no errors, artifact only from an error-free code generation, exit status vs printed diagnostics vs artifact) validating the hook trace + outside observation of every run; inputs from TLA+ enumerators (token mutations, byte-class strings, project layouts); crashes / hangs confirmed alone through the CLI",
    category="exploration",
-   text="Quick: ~4500 inputs (2200 token mutations of the shipped programs, all strings of <= 3 characters over 14 byte classes alone and inside a function body, 256 two-import project layouts); thorough: 40000 mutations and 30000 strings of <= 4. Every run must terminate within 20 s without an internal crash and its trace must be a behaviour of CompileSession.",
+   text="Quick: ~6900 inputs (token mutations incl. inserted backslash / quote-backslash-newline of the shipped programs, all strings of <= 3 characters over 17 byte classes (incl. backslash, tab, CR) alone and inside a function body, 256 two-import project layouts); thorough: 40000 mutations and 30000 strings of <= 4. Every run must terminate within 20 s without an internal crash and its trace must be a behaviour of CompileSession.",
    note="A crash is keyed by the first repository frame below the Go panic; every 4th input also runs code generation; in-process server results other than clean accept/reject are re-run through the CLI binary."),
  "C19": dict(
    technique="TLA+ SourceLayout spec: trivia as character-class sequences, the scanner position calculus and Shift; TLC-enumerated character sequences replayed into the real Position.Advance; every (program, token gap, trivia) variant compiled by the real front end and each diagnostic's recorded position validated by TLC against Shift of its original position",
@@ -46,14 +46,14 @@ CHECKS = {
    text="Transition coverage of the index-state graph for scenarios of <= 4 events over [3]i32 with indices in [-4, 3], stratified by spec-level class: an execution that indexes outside is rejected or panics; an accepted in-range scenario prints exactly the indexed elements (so a wrong element or a write to a neighbour is visible). Rejection with the documented constant-index rule is allowed and counted.",
    note="The opaque parameter reaches the function through an identity call; output comparison after every access is the observation of 'touches exactly the element'."),
  "C08": dict(
-   technique="TLA+ IndexScenario spec (Kind = dyn, str): literal construction, append, element assignment, whole reassignment to a literal of another length (also conditionally), indexing with literal / const / let / opaque / negative / 64-bit indices, len; prescribed observation (lines before the first out-of-range access, panic); one scenario per transition; compiled natively and run (in-range batched, panicking ones alone)",
+   technique="TLA+ IndexScenario spec (Kind = dyn, str): literal construction, append, element assignment, whole reassignment to a literal of another length (also conditionally), index expressions that append to the indexed array, indexing with literal / const / let / opaque / negative / 64-bit indices, len; prescribed observation (lines before the first out-of-range access, panic); one scenario per transition; compiled natively and run (in-range batched, panicking ones alone)",
    category="model_checking",
    text="Transition coverage for histories of <= 4 events over lengths 3..5 (dynamic arrays) and strings, indices in [-len-1, len]: every in-range scenario must be ACCEPTED and print the stored elements; an out-of-range access must be rejected or stop with a non-zero status, 'index out of bounds' on stderr and exactly the earlier lines delivered (stdout captured through a pipe).",
    note="Native back end only in this check (C02 compares the wasm back end); a rejection of an in-range scenario counts only with a bounds-class diagnostic."),
  "C12": dict(
    technique="TLA+ Visibility spec (AllowedSym / AllowedField) with the enumerated product symbol kind x case x access site x syntactic context x import shape; every case rendered as a multi-file project and compiled by the real front end",
    category="model_checking",
-   text="Exhaustive over the stated product (816 well-formed cases: functions, constants, variables, struct types and enum types (named through their variants) in 19 value / 6 type / 7 enum contexts from own and foreign modules through direct, aliased and nested-directory imports; fields through receiver, peer parameter, free function, foreign module and receiver-shadowing bindings, 5 operations x 6 contexts): forbidden => not accepted, allowed => accepted.",
+   text="Exhaustive over the stated product (1088 well-formed cases: functions, constants, variables, struct types and enum types (named through their variants) in 19 value / 6 type / 7 enum contexts, fields also on a struct that has methods named like its fields from own and foreign modules through direct, aliased and nested-directory imports; fields through receiver, peer parameter, free function, foreign module and receiver-shadowing bindings, 5 operations x 6 contexts): forbidden => not accepted, allowed => accepted.",
    note="An allowed access rejected without a visibility diagnostic (unsupported cross-module constructs such as module-level constants in MIR) is void and counted (47)."),
  "C10": dict(
    technique="TLA+ Literals spec over the BigNum library: LitValue / InRange judgment and an enumerator of boundary literals whose rendering is verified by TLC (LitValue(Text(v)) = v); each literal compiled alone by the real front end (ACCEPT <=> InRange) and accepted ones compiled natively in batches and run (printed value = LitValue)",
@@ -61,17 +61,17 @@ CHECKS = {
    text="Exhaustive over the boundary lattice: 12 integer types x (min-2..min+1, -1, 0, 1, max-1..max+2, 2^k-1/2^k/2^k+1 with both signs for every k up to the width) x 4 bases x 3 separator patterns = 6768 literals, in initialiser / argument / return positions; acceptance decided in both directions and the run-time value observed.",
    note="Decimal printing by the runtime is the observation of the value; '-0' and leading-zero decimals are not generated."),
  "C07": dict(
-   technique="TLA+ Borrow spec: loans with forward taint (the property's 'still used later'), shared/mutable/copied/call-returned references, temporary borrows, blocks and twice-judged loop bodies, three-valued verdict and prescribed output; TLC explores the abstract loan-state graph and emits one program per transition; uses of a reference are additionally rendered inside seven once-executed syntactic contexts (if / else / else-if / else after else-if / match arm / default arm / nested blocks); RefEscape spec for returned references; programs compiled (and legal ones run) by the real compiler",
+   technique="TLA+ Borrow spec: loans with forward taint (the property's 'still used later'), shared/mutable/copied/call-returned references, temporary borrows, blocks and twice-judged loop bodies, three-valued verdict and prescribed output; TLC explores the abstract loan-state graph and emits one program per transition; uses of a reference are additionally rendered inside seven once-executed syntactic contexts (if / else / else-if / else after else-if / match arm / default arm / nested blocks); function literals over borrowed places (created at one point, called at the end) with the whole program also rendered inside a branch; RefEscape spec for returned references; programs compiled (and legal ones run) by the real compiler",
    category="model_checking",
    text="Transition coverage of the loan-state graph for event sequences up to length 4 (quick, stratified by spec-level class) / 5 (thorough, ~90k programs) over 5 places and 2 references, each with and without an epilogue using every live reference: illegal => rejected, legal => accepted (borrow-class rejections count) and output equals the specification's; all 18 return-reference shapes.",
    note="Conflicts between different elements of one array are 'either'; a legal program rejected without a borrowing diagnostic is void; one known finding class (call-returned references) is excluded as a class."),
  "C06": dict(
    technique="TLA+ Mutability spec (Immutable/Mutates/MustReject with applicability of paths and forms); TLC enumerates the full product kind x path x form x context; every case and its mutable twin (control) compiled by the real front end",
    category="model_checking",
-   text="Exhaustive over the stated finite product (13 immutable binding kinds incl. module-level const, the index of two-variable for loops over arrays, strings and with a `_` value variable, catch variable, &T parameter/receiver/local x 8 access paths x 7 mutation forms x 6 syntactic contexts = 1644 well-formed cases): control accepted and case not accepted.",
+   text="Exhaustive over the stated finite product (13 immutable binding kinds incl. module-level const, the index of two-variable for loops over arrays, strings and with a `_` value variable, catch variable, &T parameter/receiver/local x 8 access paths x 8 mutation forms (incl. handing the place to a function value whose type promises &T while the bound function takes &'T) x 6 syntactic contexts = 1853 well-formed cases): control accepted and case not accepted.",
    note="The control (same program with a mutable root) isolates the mutability rule; cases whose control is rejected are void and counted (92: &' of a whole reference is not expressible)."),
  "C05": dict(
-   technique="TLA+ ReturnPaths spec: body grammar, definitional interpreter and structural fall-through rule, proved equivalent by TLC on every enumerated body; bodies rendered as function/method/function literal (matches also with the default arm written first / in the middle) and compiled by the real front end; accepted bodies executed and compared with the interpreter",
+   technique="TLA+ ReturnPaths spec: body grammar, definitional interpreter and structural fall-through rule, proved equivalent by TLC on every enumerated body; bodies rendered as function/method/function literal (matches also with the default arm written first / in the middle, while loops also controlled by a local flag that is re-armed after the loop) and compiled by the real front end; accepted bodies executed and compared with the interpreter",
    category="model_checking",
    text="All 11840 bodies of the grammar up to depth 2 (if/else-if/else, match with and without default, while/for/while-true with break/continue, early returns): CanFallOff => rejected, in all three declaration forms (quick: one representative per control-flow signature); accepted bodies are run on every parameter vector and must print the value of the return statement the specification's path takes.",
    note="Each condition tests its own parameter so syntactic paths are feasible; rejection of bodies that cannot fall off is allowed (one-directional property) and counted."),
